@@ -19,7 +19,7 @@ CONSTANTS L, WSBYTES     \* maximal input length; extra bytes added to every alp
 VARIABLES g, inp, opt, stack, sstack, vals, nodes, it, endIt, cur, line, col, mode, ph, status, msgs, red, ev
 vars == <<g, inp, opt, stack, sstack, vals, nodes, it, endIt, cur, line, col, mode, ph, status, msgs, red, ev>>
 
-D == INSTANCE Driver WITH RCell <- SpecCell, SCell <- SpecCell, LexAt <- LexChars, GR <- GRof
+D == INSTANCE Driver WITH RCell <- SpecCell, SCell <- SpecCell, LexAt <- LexDispatch, GR <- GRof
 
 RECURSIVE Strings(_, _)
 Strings(S, n) == IF n = 0 THEN {<<>>} ELSE LET P == Strings(S, n - 1) IN P \cup {Append(s, b) : s \in {q \in P : Len(q) = n - 1}, b \in S}
@@ -37,7 +37,7 @@ RECURSIVE Toks(_, _, _, _)
 Toks(gg, b, p, acc) ==
   LET q == D!SkipWs(b, p, D!WsSet(opt)) IN
   IF q = Len(b) THEN <<TRUE, acc>>
-  ELSE LET lx == LexChars(gg, b, q) IN IF lx[1] = -1 THEN <<FALSE, acc>> ELSE Toks(gg, b, q + lx[2], Append(acc, lx[1]))
+  ELSE LET lx == LexDispatch(gg, b, q) IN IF lx[1] = -1 THEN <<FALSE, acc>> ELSE Toks(gg, b, q + lx[2], Append(acc, lx[1]))
 
 LangOf == TLCEval([gg \in 1..NG |-> Lang(Gs[gg], L)[Gs[gg].root]])
 PrefOf == TLCEval([gg \in 1..NG |-> PrefLang(Gs[gg], L)[Gs[gg].root]])
@@ -54,7 +54,7 @@ AcceptsExactlyTheLanguage ==
 RECURSIVE Yield(_, _)
 Yield(ns, id) == IF ns[id + 1].k = 0 THEN <<TB + ns[id + 1].sym>>
                  ELSE LET ch == ns[id + 1].ch IN
-                      LET RECURSIVE Cat(_) Cat(i) == IF i > Len(ch) THEN <<>> ELSE Yield(ns, ch[i]) \o Cat(i + 1) IN Cat(1)
+                      LET RECURSIVE YCat(_) YCat(i) == IF i > Len(ch) THEN <<>> ELSE Yield(ns, ch[i]) \o YCat(i + 1) IN YCat(1)
 RECURSIVE IsDeriv(_, _, _)
 IsDeriv(gg, ns, id) ==        \* the tree rooted at id is a derivation tree: children match the rule's right side
   \/ ns[id + 1].k = 0
